@@ -251,6 +251,17 @@ pub fn resolve(world: &World, mode: &ModeSpec, entry_file: &str, requirer: &str,
     }
     let locations = lookup_name(world, mode, entry_file, name);
     if locations.is_empty() {
+        if mode.luau && !name.starts_with('@') {
+            // the documentation does not say what a plain first component that is not an alias
+            // means in the luau mode; darklua reads the path from the working directory: accepted
+            // next to an error
+            return Answer {
+                accepted: vec![
+                    Outcome { file: None, candidates: vec![], how: format!("unknown alias `{}`", name) },
+                    locate(world, mode, req, "plain path from the working directory (undocumented)".into()),
+                ],
+            };
+        }
         return Answer { accepted: vec![Outcome { file: None, candidates: vec![], how: format!("unknown source/alias `{}`", name) }] };
     }
     let accepted = locations
